@@ -29,6 +29,7 @@ extraction (L9), the word fast path (L10), query → match-tree translation (L11
 -/
 import ZoektModel.C01.Lemmas
 import ZoektModel.C01.IterLemmas
+import ZoektModel.C01.IterSpec
 namespace ZoektModel.C01
 
 /-- **one `evalMatchTree` call** on a consistent tree: the tree stays consistent, its plain value is unchanged, a decided
@@ -118,11 +119,49 @@ theorem dist_next_complete (x : Dist) (hw : x.WF) (limit : Nat) (hl : limit ≠ 
   | dist y => rw [h] at r; exact r.2
   | basic b => rw [h] at r; exact r
 
+/-- **hit iterator specification** (L2/L3, soundness + completeness + order): after any sequence of `next(limit)` calls,
+    `first()` is the MINIMUM of what the iterator held at the start that lies beyond every limit — the postings of a
+    (merged) trigram iterator, the aligned pairs `p ∈ P1, p + dist ∈ P2` of a distance iterator — or the sentinel if
+    nothing is left. The `findNext` fuel of the model provably suffices. -/
+theorem hit_iter_spec (h : Hit) (hw : h.WF) (limits : List Nat) (hl : ∀ l, l ∈ limits → l ≠ maxU32) :
+    ((h.runNext limits).first.1 = maxU32 ∧ ∀ q, h.has q → ∃ l, l ∈ limits ∧ q ≤ l) ∨
+    (h.has (h.runNext limits).first.1 ∧ (∀ l, l ∈ limits → l < (h.runNext limits).first.1) ∧
+      ∀ q, h.has q → (∀ l, l ∈ limits → l < q) → (h.runNext limits).first.1 ≤ q) := by
+  obtain ⟨w, i⟩ := Hit.runNext_spec limits h hw hl
+  obtain ⟨_, _, _, f⟩ := (h.runNext limits).first_spec w
+  rcases f with ⟨a, b⟩ | ⟨a, b⟩
+  · left
+    refine ⟨a, fun q hq => ?_⟩
+    apply Classical.byContradiction
+    intro hn
+    exact b q ((i q).mpr ⟨hq, fun l hl' => by
+      apply Classical.byContradiction; intro hlt; exact hn ⟨l, hl', by omega⟩⟩)
+  · right
+    have := (i _).mp a
+    exact ⟨this.1, this.2, fun q hq hql => b q ((i q).mpr ⟨hq, hql⟩)⟩
+
+/-- **`dist_iter_spec`**: for the distance iterator over sorted posting lists `P1`, `P2`: after any sequence of
+    `next(limit)`, `first()` = min { p ∈ P1 | p > every limit ∧ p + dist ∈ P2 } (sentinel if there is none) -/
+theorem dist_iter_spec (x : Dist) (hw : x.WF) (hfresh : x.started = false) (limits : List Nat)
+    (hl : ∀ l, l ∈ limits → l ≠ maxU32) :
+    (((Hit.dist x).runNext limits).first.1 = maxU32 ∧ ∀ q, x.Aligned q → ∃ l, l ∈ limits ∧ q ≤ l) ∨
+    (x.Aligned ((Hit.dist x).runNext limits).first.1 ∧
+      (∀ l, l ∈ limits → l < ((Hit.dist x).runNext limits).first.1) ∧
+      ∀ q, x.Aligned q → (∀ l, l ∈ limits → l < q) → ((Hit.dist x).runNext limits).first.1 ≤ q) :=
+  hit_iter_spec (.dist x) ⟨hw, fun h => by rw [hfresh] at h; exact absurd h (by simp)⟩ limits hl
+
 /-! non-vacuity of the iterator theorems: trigram "abc" at 3, 10, 20 (two case variants), "def" at 6, 13, 30 -/
 def exDist : Dist := ⟨[[3, 20], [10]], [[6, 13, 30]], 3, false⟩
 example : exDist.Aligned 10 := ⟨⟨[10], by simp [exDist], by simp⟩, ⟨[6, 13, 30], by simp [exDist], by simp [exDist]⟩⟩
 example : (Dist.findNext exDist.fuel exDist).i1.first = 3 ∧
     (match Hit.next (.dist exDist) 3 with | .dist y => y.i1.first | .basic _ => 0) = 10 := by decide
+example : exDist.WF ∧ exDist.started = false := by
+  refine ⟨⟨?_, ?_, ?_, ?_⟩, rfl⟩
+  · intro l hl; simp [exDist] at hl; rcases hl with h | h <;> subst h <;> simp [SortedL]
+  · intro l hl; simp [exDist] at hl; subst hl; simp [SortedL]
+  · intro p ⟨l, hl, hp⟩; simp [exDist] at hl; rcases hl with h | h <;> subst h <;> simp at hp <;> simp [maxU32] <;> omega
+  · intro p ⟨l, hl, hp⟩; simp [exDist] at hl; subst hl; simp at hp; simp [maxU32]; omega
+example : ((Hit.dist exDist).runNext [3, 5]).first.1 = 10 ∧ ((Hit.dist exDist).runNext [3, 10]).first.1 = maxU32 := by decide
 
 /-! non-vacuity: a shard of 5 documents (document 3 dead), tree `and[doc-predicate, not(regexp verdicts), or[branch, none]]` -/
 def exCtx : Ctx := ⟨[[97], [98], [99], [100], [101]], [[], [], [], [], []], [true, true, true, false, true]⟩
